@@ -25,7 +25,7 @@ TIERS = {
 }
 FAULT_KINDS = ["disk_write", "disk_remove", "disk_mkdir_over", "disk_nonutf8", "disk_create", "proto_duplicate_open", "proto_change_unopened",
                "proto_close_unopened", "proto_empty_change", "proto_multi_change", "proto_cancel", "proto_unknown_notification",
-               "proto_unknown_request", "proto_request_closed_doc", "burst"]
+               "proto_unknown_request", "proto_request_closed_doc", "proto_ranged_change", "burst"]
 PROBES = ["parse_error_then_valid", "valid_then_parse_error", "close_then_reopen", "duplicate_open", "change_never_opened", "request_closed_document",
           "position_beyond_last_line", "non_ascii_line", "crlf_text", "burst_ge_8", "disk_fault_then_close", "strict_final_compared",
           "fmt_oracle_rejects", "fmt_oracle_accepts", "build_oracle_succeeds", "overlay_episode_closed", "final_probes_compared", "definition_answered", "hover_answered", "semtok_nonempty",
@@ -152,7 +152,10 @@ def generate(rng, tier, idx):
                 texts = []
             elif mode["protocol"] and rng.chance(15):
                 texts = [gen_ucg.gen_text(rng, imports_for(docs[i]), True, exports_for(docs[i]))[1], text]
-            session.append({"m": "change", "doc": i, "texts": texts, "cls": cls})
+            msgc = {"m": "change", "doc": i, "texts": texts, "cls": cls}
+            if mode["protocol"] and texts and rng.chance(15):
+                msgc["ranged"] = True     # contentChanges carry a range as an incremental-sync client would send it
+            session.append(msgc)
             if texts:
                 state[i] = texts[-1]
                 last_text[i] = texts[-1]
@@ -259,24 +262,6 @@ def canon_reply(sb, kind, msg):
     if kind == "wssym" and isinstance(m.get("result"), list):
         m["result"] = sorted(m["result"], key=lambda x: json.dumps(x, sort_keys=True))
     return m
-
-
-def ranges_in(obj, path=""):
-    """yield (json path, range dict, enclosing object) for every LSP Range in a reply"""
-    if isinstance(obj, dict):
-        if set(obj.keys()) >= {"start", "end"} and isinstance(obj["start"], dict) and "line" in obj["start"]:
-            yield path, obj, None
-        for k, v in obj.items():
-            if k == "range" and isinstance(v, dict) and "start" in v:
-                yield path + ".range", v, obj
-            elif isinstance(v, (dict, list)):
-                for r in ranges_in(v, path + "." + k):
-                    if not (k == "range"):
-                        yield r
-    elif isinstance(obj, list):
-        for i, v in enumerate(obj):
-            for r in ranges_in(v, path + "[%d]" % i):
-                yield r
 
 
 _POS = re.compile(r"line: (\d+) column: (\d+)")
@@ -570,7 +555,13 @@ def execute(world, sb, res):
                 if len(msg["texts"]) > 1:
                     res.fault("proto_multi_change")
                     had_fault = True
-                srv.notify("textDocument/didChange", {"textDocument": {"uri": uri, "version": mi}, "contentChanges": [{"text": t} for t in msg["texts"]]})
+                if msg.get("ranged"):
+                    changes = [{"range": {"start": {"line": 0, "character": 0}, "end": {"line": 3, "character": 1}}, "rangeLength": 7, "text": t} for t in msg["texts"]]
+                    res.fault("proto_ranged_change")
+                    had_fault = True
+                else:
+                    changes = [{"text": t} for t in msg["texts"]]
+                srv.notify("textDocument/didChange", {"textDocument": {"uri": uri, "version": mi}, "contentChanges": changes})
                 if msg["texts"]:
                     buffers[uri] = msg["texts"][-1]
                     pending.append({"type": "diag", "kind": "change", "uri": uri, "text": msg["texts"][-1], "texts": dict(buffers)})
